@@ -18,9 +18,9 @@ def namesSeparated (s : SchemaSet) : Bool :=
     | _ => none
   fields.all fun (k, n) => (fields.filter (fun x => x.1 == k && x.2 == n)).length == 1
 
-partial def genWF (seed : Nat) (cyclic small : Bool) (tries : Nat) (wsdl : Bool := false) (multi : Bool := false) (topo : Bool := false) : SchemaSet × Nat :=
-  let s := if topo then Gen.runTopo (seed * 1000 + tries) else if wsdl then Gen.runWsdl (seed * 1000 + tries) small multi else Gen.run (seed * 1000 + tries) cyclic small
-  if namesSeparated s || tries > 50 then (s, tries) else genWF seed cyclic small (tries + 1) wsdl multi topo
+partial def genWF (seed : Nat) (cyclic small : Bool) (tries : Nat) (wsdl : Bool := false) (multi : Bool := false) (topo : Bool := false) (plain : Bool := false) : SchemaSet × Nat :=
+  let s := if plain then Gen.runPlain (seed * 1000 + tries) else if topo then Gen.runTopo (seed * 1000 + tries) else if wsdl then Gen.runWsdl (seed * 1000 + tries) small multi else Gen.run (seed * 1000 + tries) cyclic small
+  if namesSeparated s || tries > 50 then (s, tries) else genWF seed cyclic small (tries + 1) wsdl multi topo plain
 
 def features (s : SchemaSet) : List String :=
   let comps := s.files.flatMap (·.comps)
@@ -43,8 +43,8 @@ def features (s : SchemaSet) : List String :=
   (if selfImport then ["selfimport"] else []) ++ (if cyc then ["cycle"] else []) ++
   (if (Ref.reachable s).length < s.files.length then ["unreachable"] else [])
 
-def writeCase (root : String) (idx : Nat) (seed : Nat) (cyclic small : Bool) (wsdl : Bool := false) (multi : Bool := false) (topo : Bool := false) : IO Unit := do
-  let (s, tries) := genWF seed cyclic small 0 wsdl multi topo
+def writeCase (root : String) (idx : Nat) (seed : Nat) (cyclic small : Bool) (wsdl : Bool := false) (multi : Bool := false) (topo : Bool := false) (plain : Bool := false) : IO Unit := do
+  let (s, tries) := genWF seed cyclic small 0 wsdl multi topo plain
   let dir := s!"{root}/c{idx}"
   IO.FS.createDirAll s!"{dir}/in"
   for (f, i) in s.files.zipIdx do
@@ -79,9 +79,9 @@ def writeCase (root : String) (idx : Nat) (seed : Nat) (cyclic small : Bool) (ws
   IO.FS.writeFile s!"{dir}/shapes.txt" (String.join (shapeLines.map (· ++ "\n")))
   IO.FS.writeFile s!"{dir}/ref.obs" (String.join ((Ref.structLines s ++ Ref.wsdlLines s).map (· ++ "\n")))
 
-def main (seed count : Nat) (root : String) (cyclic : Bool := false) (small : Bool := false) (wsdl : Bool := false) (multi : Bool := false) (topo : Bool := false) : IO UInt32 := do
+def main (seed count : Nat) (root : String) (cyclic : Bool := false) (small : Bool := false) (wsdl : Bool := false) (multi : Bool := false) (topo : Bool := false) (plain : Bool := false) : IO UInt32 := do
   for i in [0:count] do
-    writeCase root i (seed + i) cyclic small wsdl multi topo
+    writeCase root i (seed + i) cyclic small wsdl multi topo plain
   return 0
 
 end ZeepVerif.Driver.SpecGen
